@@ -28,5 +28,11 @@ inline std::string jstr(const std::string & s) {
     for (unsigned char c : s) { if (c == '"' || c == '\\') { o += '\\'; o += (char)c; } else if (c < 32 || c > 126) { char b[8]; snprintf(b, 8, "\\u%04x", c); o += b; } else o += (char)c; }
     return o + "\"";
 }
+#ifdef VERIF_COV_BUILD
+extern "C" void __gcov_dump(void);
+inline void cov_flush() { __gcov_dump(); }      // reach audit builds only: a worker that leaves through _exit still records what it ran
+#else
+inline void cov_flush() {}
+#endif
 inline uint64_t env_u64(const char * n, uint64_t d) { const char * v = getenv(n); return v && *v ? strtoull(v, nullptr, 0) : d; }
 }
